@@ -82,7 +82,29 @@ def shipped_pairs(rng, count, max_atoms=60):
     return pairs
 
 
-def pmap(ctx, fn, items):
+def pmap(ctx, fn, items, on_died=None):
     from check import pmap as _pmap
 
-    return _pmap(fn, items, getattr(ctx, "procs", 4))
+    return _pmap(fn, items, getattr(ctx, "procs", 4), on_died)
+
+
+def eval_small_isolated(ctx):
+    """replacement evaluation for an item whose worker died: every configuration in a process of its own; a configuration
+    that kills its process gets the result ("crash", ...) and is recorded in ctx.stats / ctx.notes"""
+    from check import _run_pool
+
+    def on_died(item):
+        case, configs = item
+        out = {}
+        for cfg in configs:
+            done, lost, _s = _run_pool(eval_small, [(0, (case, [cfg]))], 1)
+            if lost:
+                out[cfg_name(cfg)] = ("crash", "worker process died (native crash of the selected engine)")
+                ctx.bump(f"native_crash:{cfg_name(cfg)}")
+                note = f"native crash (worker process died) with {cfg_name(cfg)}; the configuration is left out of the comparison for that input"
+                if note not in ctx.notes:
+                    ctx.notes.append(note)
+            else:
+                out.update(done[0])
+        return out
+    return on_died
